@@ -510,10 +510,11 @@ func executeC20(scn *Scenario) *RunResult {
 		recordSoloSites = scn.Strat.Kind != "replay" && !scn.Strat.Resolved && c.Kind != "dualload"
 		refs, total := soloRefs(twin, c.Readers)
 		recordSoloSites = false
+		profiles := coldProfiles(c.Readers, refs)
 		if c.Kind != "dualload" {
-			adaptToSync(&scn.Strat, c.Readers, refs)
+			adaptToSync(&scn.Strat, profiles)
 		}
-		resolveSweep(&scn.Strat, c.Readers, refs)
+		resolveSweep(&scn.Strat, c.Readers, profiles)
 		refBytes, _ := safeMarshal(twin)
 		featuresOf(refBytes).probes(res.Counters)
 		other := priorStreamFor2(enc)
